@@ -89,6 +89,7 @@ func stripSig(items []cfb.Item) []cfb.Item {
 
 func TestC18_Histories(t *testing.T) {
 	maxOps := evid.EnvInt("VERIF_C18_OPS", 8)
+	fullFATEvery := evid.EnvInt("VERIF_C18_FULLFAT_EVERY", 40)
 	rapid.Check(t, func(t *rapid.T) {
 		spec := cfb.Gen(t)
 		if knownSet.Has(kNoMini) && hasClass(spec, "nomini") {
@@ -98,6 +99,17 @@ func TestC18_Histories(t *testing.T) {
 		data, err := cfb.Build(spec)
 		if err != nil {
 			t.Skip("generator refused: " + err.Error())
+		}
+		extraClass := ""
+		if rapid.IntRange(0, fullFATEvery-1).Draw(t, "full_fat") == 0 {
+			// a file whose next FAT sector needs a new DIFAT sector
+			target := 109
+			if evid.Thorough() && rapid.IntRange(0, 3).Draw(t, "second_difat") == 0 {
+				target = 109 + 127
+			}
+			if s2, d2, ok := fullFATSpec(t, target); ok {
+				spec, data, extraClass = s2, d2, fullFATClass(target)
+			}
 		}
 		pre, err := cfb.Parse(data)
 		if err != nil || !pre.Valid() {
@@ -110,6 +122,9 @@ func TestC18_Histories(t *testing.T) {
 		}
 		defer os.Remove(path)
 		cd := &caseDesc{Classes: spec.Classes()}
+		if extraClass != "" {
+			cd.Classes = append(cd.Classes, extraClass)
+		}
 		failf := func(format string, args ...any) {
 			cd.Error = fmt.Sprintf(format, args...)
 			if len(data) < 300000 {
@@ -230,8 +245,8 @@ func TestC18_Histories(t *testing.T) {
 		}
 		f.Close()
 		check("final")
-		nt := mutations >= 2 && len(spec.Classes()) >= 2
-		rec.Case(fmt.Sprintf("%x|%v", sha(data), cd.Ops), "hist/"+fmt.Sprint(min(mutations, 4))+"/"+strings.Join(spec.Classes(), ","), nt)
+		nt := mutations >= 2 && len(cd.Classes) >= 2
+		rec.Case(fmt.Sprintf("%x|%v", sha(data), cd.Ops), "hist/"+fmt.Sprint(min(mutations, 4))+"/"+strings.Join(cd.Classes, ","), nt)
 		if nt {
 			rec.Sample(fmt.Sprint(min(mutations, 4)), cd)
 		}
